@@ -98,6 +98,62 @@ def twin_oracle(rep, rng, tier, names):
                 break
 
 
+def via_dispatch(c):
+    """The window through TracesParser.parse_event_list under the bundled table (what `feed` does with a closed window):
+    the text of the trace, `none`, or `raise <exception>`."""
+    from pykdebugparser.kevent import from_kd_buf
+    from pykdebugparser.traces_parser import TracesParser
+    events = [from_kd_buf(r) for r in D.window_events(c)]
+    try:
+        t = TracesParser(dict(D.CODES), {}, {}).parse_event_list(events)
+        return 'none' if t is None else str(t)
+    except Exception as e:
+        return 'raise ' + core.err_name(e)
+
+
+OUT_OF_DOMAIN = [123, 0xdead, 1 << 31, (1 << 63) + 1, (1 << 64) - 1]
+BAD_PATHS = ['/caf\udce9', '\udcff\udcfe', '/ok/\udcc3', 'a\udc80b' * 9]        # not valid UTF-8 (surrogateescape = raw bytes)
+
+
+def twin_dispatch_oracle(rep, rng, tier, names):
+    """The twins through the DISPATCH, also where the shared decoder does not accept the window: whatever X does with a
+    window (a text, nothing, an exception) X_nocancel does the same — a text differing only by the suffix of the call name,
+    nothing where X gives nothing, the same exception where X raises.  Windows: in-domain ones, every START word replaced
+    by values outside any enum (123, 0xdead, 2^31, 2^63+1, 2^64-1), looked-up paths that are not valid UTF-8."""
+    sec = rep.section('twins-dispatch')
+    sec['rule'] = ('every X_nocancel / X pair through TracesParser.parse_event_list under the bundled table on in-domain windows, '
+                   'windows with one START word out of every domain (%s) and windows whose paths are not valid UTF-8: the '
+                   'outcome of X_nocancel must be the outcome of X (text with "_nocancel" appended to the call name / nothing / '
+                   'the same exception)' % ', '.join(hex(v) for v in OUT_OF_DOMAIN))
+    every = sorted(names)
+    for n in every:
+        if not n.endswith('_nocancel') or n[:-9] not in names or n not in D.IDS or n[:-9] not in D.IDS:
+            continue
+        base = n[:-9]
+        cases = [D.make_case(rng, n) for _ in range(3 if tier == 'quick' else 40)]
+        seed_case = D.make_case(rng, n)
+        for pos in range(4):
+            for v in OUT_OF_DOMAIN:
+                c = dict(seed_case, start=list(seed_case['start']))
+                c['start'][pos] = v
+                cases.append(c)
+        for pth in BAD_PATHS:
+            cases.append(dict(seed_case, lookups=[[pth, 7], ['/second' + pth, 8]]))
+        for c in cases:
+            a, b = via_dispatch(c), via_dispatch(dict(c, name=base))
+            sec['cases'] += 1
+            if a.startswith('raise') or a == 'none':
+                sec['dist']['rejected'] = sec['dist'].get('rejected', 0) + 1
+                bad = a != b
+            else:
+                sec['distinct_nontrivial'] += 1
+                bad = b.startswith('raise') or b == 'none' or twins_differ(a, b)
+            if bad:
+                rep.add_failure('twins:dispatch-differs:' + n, 'through parse_event_list %s gives %r where %s gives %r on the same '
+                                'window' % (n, a[:300], base, b[:300]), {'section': 'twins-dispatch', 'case': c, 'base': base})
+                break
+
+
 def dispatch_oracle(rep, rng, tier):
     """Reachability exercised, not only read off the tables: for every registered decoder a window under the bundled
     table goes through TracesParser.parse_event_list and must come back as the text the decoder itself produces.  Before
@@ -160,6 +216,7 @@ def correspondence(rep, rng, tier):
     D.section_decoders(rep, rng, tier, names=names, name='decoders-twins', per=6 if tier == 'quick' else 80,
                        syntax=6 if tier == 'quick' else 1000)
     twin_oracle(rep, rng, tier, set(D.all_handler_names()))      # every registered twin, translated or not
+    twin_dispatch_oracle(rep, rng, tier, set(D.all_handler_names()))
     st = D.stats()
     if st['total'] != len(seen):
         rep.broken.append('reflection: Gen.Decoders lists %d handlers, the real tables %d' % (st['total'], len(seen)))
@@ -192,6 +249,14 @@ def replay(path):
         print('model:', core.drive([D.line(c)])[0])
         if got.startswith('unstable'):
             rep.add_failure('decoder:renders-differently', 'two renderings differ', rp)
+    elif rp.get('section') == 'twins-dispatch':
+        c = rp['case']
+        a, b = via_dispatch(c), via_dispatch(dict(c, name=rp['base']))
+        print('%-28s: %r' % (c['name'], a))
+        print('%-28s: %r' % (rp['base'], b))
+        rejected = a.startswith('raise') or a == 'none'
+        if (a != b) if rejected else (b.startswith('raise') or b == 'none' or twins_differ(a, b)):
+            rep.add_failure('twins:dispatch-differs', 'differ', rp)
     elif rp.get('section') == 'twins':
         c = rp['case']
         a, b = render(c), render(dict(c, name=rp['base']))
